@@ -548,7 +548,15 @@ Fixpoint spec_errors (gap_aware : bool) (w : world) (decls : list cdecl) (ops : 
           | DefClass d =>
               let meta := cd_dbc d || existsb (fun b => match get_class w b with Some c => co_meta c | None => false end) (cd_bases d) in
               match compute_mro w (List.length (w_classes w)) (cd_bases d) with
-              | Some mro => error_ok (class_misuses gap_aware decls w d mro meta) err
+              | Some mro =>
+                  error_ok (class_misuses gap_aware decls w d mro meta) err
+                  (* an ancestor that was not created through the meta-class overrides without inheriting: what lies
+                     beyond it is not combined (the properties speak of hierarchies on the contract-inheriting base), so a
+                     precondition added below it may be rejected as a weakening of "no precondition at all" *)
+                  || (match err with Some e => String.eqb e "TypeError" | None => false end
+                      && meta
+                      && negb (forallb (fun j => match get_class w j with Some co => co_meta co | None => false end) (tl mro))
+                      && existsb (fun m => negb (is_nil (own_pre m))) (cd_members d))
               | None => match err with Some _ => true | None => false end     (* inconsistent hierarchy: Python's TypeError *)
               end
           | DefRedecorate _ _ _ => true         (* the decorations generated are valid ones; nothing is claimed about their errors *)
